@@ -308,3 +308,19 @@ Lemma exec_step_immutable T w o mn args chs wrap : immutable_false w o = false -
   (forall c m, lookup_call T w o mn = Some (c, m) -> is_rcall (mret m) = false) ->
   exec_step T w (SCall o mn args chs wrap) = exec_call T (fun _ _ m => true && mcopies m) w o mn args chs wrap.
 Proof. intros H NR. cbn. apply exec_call_ext; auto. intros m. unfold copies_now. rewrite H. cbn. apply andb_true_r. Qed.
+
+(* ---------- a rejected call inside an in-place chain ---------- *)
+(* When the decorator does not copy and no effect of the row fires (the call was rejected before it wrote anything), the
+   step leaves the whole heap - hence the one object - exactly as it was and hands the receiver back. *)
+Lemma unfired_in_place_noop T (cp : world -> nat -> meth -> bool) w o mn args chs w' r c m :
+  lookup_call T w o mn = Some (c, m) -> cp w o m = false -> mret m = RSelf ->
+  fired_ok false (crecopy c) (meffs m) chs = true ->
+  exec_call T cp w o mn args chs [] = Some (w', r) -> w' = w /\ r = o.
+Proof.
+  intros LC CP MR Q H. unfold exec_call in H. rewrite LC in H.
+  destruct (forallb _ args); cbn [negb] in H; [|discriminate].
+  rewrite MR in H. unfold exec_body in H. rewrite CP in H.
+  destruct (run_effs w o args (meffs m) chs) as [w2|] eqn:RE; [|discriminate].
+  cbn in H. inversion H; subst. split; auto. symmetry.
+  symmetry. eapply run_effs_unfired; eauto.
+Qed.
